@@ -45,6 +45,12 @@ def call_real(inp):
     samples = inp["samples"]
     n_an = len(samples[0])
     pts = lattice_tensor(samples, 4).reshape(len(samples), n_an, nodes, 2)      # (n_samples, animals, nodes, 2)
+    # "mag": the same scene magnified K times (image, stride and keypoints x K - the Gaussian's width sigma * stride scales
+    # with them; exact in float32).  The maps are scale-covariant, so the judged case is unchanged, but the real code works
+    # at image-scale coordinates (up to 2048 px).
+    K = int(inp.get("mag", 1))
+    if K != 1:
+        H, W, s, pts = H * K, W * K, s * K, pts * K
     if api in ("fn", "fn3"):
         if v == "single":
             x = pts[:, 0] if api == "fn3" else pts                                   # rank 3 or rank 4 input
@@ -89,7 +95,7 @@ def make_input(fam, variant, api, H, W, s, sig, nodes, samples, ninst, bidx=0):
         _PIPE_N[0] += 1
         spos = _PIPE_N[0] % 3
     return dict(fam=fam, variant=variant, api=api, H=H, W=W, s=s, sn=sig[0], sd=sig[1], nodes=nodes,
-                samples=samples, ninst=ninst, bidx=bidx, spos=spos)
+                samples=samples, ninst=ninst, bidx=bidx, spos=spos, mag=1)
 
 
 def observe(inputs):
@@ -236,6 +242,8 @@ def random_frames(rng, cell_budget):
         if rng.random() < 0.3 and n_an > 1:       # a second animal right next to the first: the max matters
             pts[1] = [[c if c == NAN else c + rng.randint(-6, 6) for c in p] for p in pts[0]]
         inputs.append(make_input("random", variant, api, H, W, s, rng.choice(SIGMAS), nodes, [pts], ninst))
+        if rng.random() < 0.3:
+            inputs[-1]["mag"] = rng.choice((16, 32))
         used += nodes * (H // s) * (W // s)
     return inputs
 
@@ -282,6 +290,8 @@ def count_clauses(res, cases):
         res.clause("stride_%d" % c["s"])
         if c["H"] % c["s"] or c["W"] % c["s"]:
             res.clause("case_with_side_not_multiple_of_stride")
+        if c.get("mag", 1) != 1:
+            res.clause("case_magnified_to_image_scale_coordinates")
 
 
 def judge_round(res, name, inputs, note, stats):
@@ -296,7 +306,7 @@ def judge_round(res, name, inputs, note, stats):
     stats["rejected"] = stats.get("rejected", 0) + j["rejected_n"]
     for cid, clause in j["rejected"]:
         c = cases[int(cid)]
-        res.violation(key_of(c, clause), clause, {k: c[k] for k in ("fam", "variant", "api", "H", "W", "s", "sn", "sd", "nodes", "samples", "ninst", "bidx", "spos")},
+        res.violation(key_of(c, clause), clause, {k: c[k] for k in ("fam", "variant", "api", "H", "W", "s", "sn", "sd", "nodes", "samples", "ninst", "bidx", "spos", "mag")},
                       "%s(%s) %dx%d stride %d sigma %d/%d pts=%s num_instances=%d sample %d of %d: %s" % (
                           where_of(c), c["api"], c["H"], c["W"], c["s"], c["sn"], c["sd"], json.dumps(c["samples"]), c["ninst"],
                           c["bidx"], c["batch"], c["raised"] or clause))
